@@ -7,7 +7,7 @@ From Coq Require Import ZArith List.
 Import ListNotations.
 From V Require Import Valid.Hier Valid.Walk Valid.FlatRegion Valid.Run.
 From Coq Require Import Lia.
-From V Require Import Model.Pipe Model.PipeBounded Model.PipeBounded4 Model.Graph Model.Edits Model.Edits2 Model.JoinPath Model.Refine Model.CbPath Model.LoopEdit Model.LoopSpec Model.LoopPath.
+From V Require Import Model.Pipe Model.PipeBounded Model.PipeBounded4 Model.Graph Model.Edits Model.Edits2 Model.JoinPath Model.Refine Model.CbPath Model.LoopEdit Model.LoopSpec Model.LoopPath Model.LoopPath2.
 
 Theorem C01_checker_sound :
   forall rw g h, c01_check rw g h = true -> PathEq rw g h.
@@ -137,6 +137,56 @@ Proof.
 Qed.
 Print Assumptions C01_loop_rotation_preserves_paths.
 
+(* loop rotation with SEVERAL headers, for ALL graphs (no bound): header unification followed by the
+   rotation on the unified head, whose variable doubles as the exit variable, keeps every walk of the
+   graph it started from.  Hypotheses: those of the two theorems above, for the original graph; the
+   head is among the processed blocks and none of its arcs counts as a back edge (it dominates the
+   headers); every header is entered from an entry block *)
+Theorem C01_multi_header_loop_rotation_preserves_paths :
+  forall g top H v entries headers names_cb g1 exits todo header_tbl isback latch sexit bv names g2,
+    let needs := match exits with _ :: _ :: _ => true | _ => false end in
+    insert_cb g H v entries headers names_cb C_HEAD = Ok g1 ->
+    efind g1 H = Some (mkE headers [] (EBranch C_HEAD v header_tbl)) ->
+    loop_rotate g1 H headers exits todo true header_tbl isback latch sexit v bv names = Ok g2 ->
+    NoDup entries /\ ~ In H entries ->
+    (NoDup names_cb /\ forall a, In a names_cb ->
+        efind g a = None /\ a <> H /\ ~ In a entries /\ ~ In a headers /\ a <> top) ->
+    (forall p b, In p entries -> efind g p = Some b ->
+        NoDup (e_jt b) /\ (forall a, In a names_cb -> ~ In a (e_jt b)) /\
+        (forall c w t, e_kind b = EBranch c w t -> NoDup (map fst t))) ->
+    ~ In top (ekeys g) /\ top <> H ->
+    efind g H = None ->
+    (forall x b t, efind g x = Some b -> In t (e_jt b) -> In t (ekeys g)) ->
+    NoDup headers /\ (forall s, In s headers -> In s (ekeys g)) /\ (forall s, In s headers -> ~ In s exits) ->
+    (v <> bv /\ forall x b, efind g x = Some b ->
+        match e_kind b with
+        | EAssign a => forall p, In p a -> fst p <> v /\ fst p <> bv
+        | EBranch _ w _ => w <> v /\ w <> bv
+        | EPlain _ => True
+        end) ->
+    (NoDup todo /\ forall p, In p todo -> p = H \/
+        (~ In p entries /\ exists b, efind g p = Some b /\ nonbranch b /\ e_be b = [] /\ NoDup (e_jt b) /\
+                                     (forall a, In a names -> ~ In a (e_jt b)))) ->
+    (forall t, In t headers -> isback H t = false) ->
+    (NoDup names /\ forall a, In a names ->
+        efind g a = None /\ ~ In a names_cb /\ a <> H /\ ~ In a todo /\ a <> latch /\ a <> sexit /\ a <> top) ->
+    efind g latch = None /\ ~ In latch names_cb /\ latch <> H /\ latch <> top /\ ~ In latch todo ->
+    (needs = true ->
+        efind g sexit = None /\ ~ In sexit names_cb /\ sexit <> H /\ sexit <> latch /\ sexit <> top /\ ~ In sexit todo) ->
+    NoDup exits /\ (forall x, In x exits -> In x (ekeys g)) ->
+    (forall t, In t headers -> exists p b k, In p entries /\ efind g p = Some b /\ nth_error (e_jt b) k = Some t) ->
+    forall n e e' ds tr st,
+      (exists b, efind g n = Some b /\ e_kind b = EPlain 100) ->
+      E (Fu v bv) e e' ->
+      WTrace (ehier top g) (resolve_flat (ehier top g)) false n e ds tr st ->
+      WTrace (ehier top g2) (resolve_flat (ehier top g2)) false n e' ds tr st.
+Proof.
+  intros g top H v entries headers names_cb g1 exits todo header_tbl isback latch sexit bv names g2 needs.
+  exact (unified_rotation_keeps_walks g top H v entries headers names_cb g1 exits todo header_tbl isback
+           latch sexit bv names g2 false).
+Qed.
+Print Assumptions C01_multi_header_loop_rotation_preserves_paths.
+
 (* the generic reason (Model/Refine.v): an edit keeps every walk when each old block keeps its kind and
    arity and each way of leaving it leads, through a bridge that only touches fresh variables, to the
    block it led to before *)
@@ -231,4 +281,58 @@ Proof.
   - cbn. intuition lia.
   - intros x b t Hb Ht. destruct (Hf x b Hb) as [[-> ->]|[[-> ->]|[[-> ->]|[[-> ->]|[-> ->]]]]]; cbn in Ht |- *; intuition lia.
   - split; [lia|]. intros x b Hb. destruct (Hf x b Hb) as [[-> ->]|[[-> ->]|[[-> ->]|[[-> ->]|[-> ->]]]]]; exact I.
+Qed.
+
+(* non-vacuity of C01_multi_header_loop_rotation_preserves_paths: the irreducible loop {2, 3}, entered
+   from 1 at both 2 and 3, left from 3 to 4 *)
+Example C01_multi_header_example :
+  let g := [(1, mkE [2; 3] [] (EPlain 100)); (2, mkE [3] [] (EPlain 100)); (3, mkE [2; 4] [] (EPlain 100));
+            (4, mkE [] [] (EPlain 100))] in
+  let isb := fun a (_ : name) => negb (Z.eqb a 9) in
+  exists g1 g2, insert_cb g 9 7 [1] [2; 3] [10; 11] C_HEAD = Ok g1 /\
+    loop_rotate g1 9 [2; 3] [4] [2; 3; 9] true [(0, 2); (1, 3)] isb 30 0 7 8 [20; 21; 22] = Ok g2 /\
+    forall n e e' ds tr st,
+      (exists b, efind g n = Some b /\ e_kind b = EPlain 100) -> E (Fu 7 8) e e' ->
+      WTrace (ehier 99 g) (resolve_flat (ehier 99 g)) false n e ds tr st ->
+      WTrace (ehier 99 g2) (resolve_flat (ehier 99 g2)) false n e' ds tr st.
+Proof.
+  cbv zeta. eexists. eexists. split; [vm_compute; reflexivity|]. split; [vm_compute; reflexivity|].
+  assert (Hf : forall x b, efind [(1, mkE [2; 3] [] (EPlain 100)); (2, mkE [3] [] (EPlain 100));
+                                  (3, mkE [2; 4] [] (EPlain 100)); (4, mkE [] [] (EPlain 100))] x = Some b ->
+               (x = 1 /\ b = mkE [2; 3] [] (EPlain 100)) \/ (x = 2 /\ b = mkE [3] [] (EPlain 100)) \/
+               (x = 3 /\ b = mkE [2; 4] [] (EPlain 100)) \/ (x = 4 /\ b = mkE [] [] (EPlain 100))).
+  { intros x b. unfold efind. cbn [zassoc].
+    destruct (Z.eqb_spec x 1); [intros [= <-]; auto|]. destruct (Z.eqb_spec x 2); [intros [= <-]; auto|].
+    destruct (Z.eqb_spec x 3); [intros [= <-]; auto 6|]. destruct (Z.eqb_spec x 4); [intros [= <-]; auto 7|discriminate]. }
+  eapply (C01_multi_header_loop_rotation_preserves_paths _ 99 9 7 [1] [2; 3] [10; 11] _ [4] [2; 3; 9] [(0, 2); (1, 3)]
+            (fun a _ => negb (Z.eqb a 9)) 30 0 8 [20; 21; 22]).
+  - vm_compute. reflexivity.
+  - vm_compute. reflexivity.
+  - vm_compute. reflexivity.
+  - split; [repeat constructor; cbn; intuition lia|cbn; intuition lia].
+  - split; [repeat constructor; cbn; intuition lia|].
+    intros a Ha. cbn in Ha. destruct Ha as [<-|[<-|[]]]; (split; [reflexivity|]); cbn; intuition lia.
+  - intros p b Hp Hb. destruct (Hf p b Hb) as [[-> ->]|[[-> ->]|[[-> ->]|[-> ->]]]]; cbn in Hp;
+      try (exfalso; intuition lia); (split; [repeat constructor; cbn; intuition lia|]);
+      (split; [intros a Ha; cbn in Ha |- *; intuition lia|intros; discriminate]).
+  - split; [cbn; intuition lia|lia].
+  - reflexivity.
+  - intros x b t Hb Ht. destruct (Hf x b Hb) as [[-> ->]|[[-> ->]|[[-> ->]|[-> ->]]]]; cbn in Ht |- *; intuition lia.
+  - split; [repeat constructor; cbn; intuition lia|]. split; intros s0 Hs0; cbn in Hs0 |- *; intuition lia.
+  - split; [lia|]. intros x b Hb. destruct (Hf x b Hb) as [[-> ->]|[[-> ->]|[[-> ->]|[-> ->]]]]; exact I.
+  - split; [repeat constructor; cbn; intuition lia|].
+    intros p [<-|[<-|[<-|[]]]].
+    + right. split; [cbn; intuition lia|]. eexists. split; [reflexivity|]. split; [intros ? ? ?; discriminate|].
+      split; [reflexivity|]. split; [repeat constructor; cbn; intuition lia|]. intros a Ha. cbn in Ha |- *. intuition lia.
+    + right. split; [cbn; intuition lia|]. eexists. split; [reflexivity|]. split; [intros ? ? ?; discriminate|].
+      split; [reflexivity|]. split; [repeat constructor; cbn; intuition lia|]. intros a Ha. cbn in Ha |- *. intuition lia.
+    + left. reflexivity.
+  - intros t _. reflexivity.
+  - split; [repeat constructor; cbn; intuition lia|].
+    intros a Ha. cbn in Ha. destruct Ha as [<-|[<-|[<-|[]]]]; (split; [reflexivity|]); cbn; intuition lia.
+  - split; [reflexivity|]. cbn. intuition lia.
+  - intros Hn. discriminate Hn.
+  - split; [repeat constructor; cbn; intuition lia|]. intros x Hx. cbn in Hx |- *. intuition lia.
+  - intros t Ht. cbn in Ht. destruct Ht as [<-|[<-|[]]]; exists 1, (mkE [2; 3] [] (EPlain 100));
+      [exists 0%nat|exists 1%nat]; (split; [left; reflexivity|split; reflexivity]).
 Qed.
